@@ -124,4 +124,10 @@ var plans = map[string]plan{
 			"multipart: string members travel as text parts, every other member as an application/json part",
 		},
 	},
+	"C07": {
+		Quick:    []stage{enumStage(), rapidStage(4_000)},
+		Thorough: []stage{enumStage(), rapidStage(200_000)},
+		Rule:     "cases are (parameters at path level, operation level or both (an override whose two declarations accept disjoint values, so that consulting the wrong one flips the verdict), each absent / valid-for-one / valid-for-the-other; JSON body none / valid / invalid / absent-but-required; operation-level and document-level security requirement lists of 8 shapes; callback outcome per scheme; options MultiError, ExcludeRequestBody, ExcludeRequestQueryParams; missing AuthenticationFunc). enum stage: the security truth table (8 x 8 lists x 8 outcome tables x 2 modes) and the parts truth table (3 locations x 27 send combinations x 3 bodies x 8 option sets), complete; rapid stage: random combinations. Oracle: truth-table model; in multi-error mode the members must be exactly the failing parts; the callback log must stay inside the effective requirement list. non-trivial = an override is present, both security levels are declared, >= 2 requirements, or an exclusion option is set. distinct = FNV-64a of the canonical case JSON.",
+		Assume:   []string{"validity of each part is known by construction (values 1 / 99 against maximum 10 / minimum 50)"},
+	},
 }
